@@ -103,3 +103,13 @@ MUTANTS += [
     dict(id="c04-server-abort-keeps-tr", props=["C04"], file="appservice.py", old="    def segmented_request_timeout(self):\n        if _debug: ServerSSM._debug(\"segmented_request_timeout\")\n\n        # give up\n        self.set_state(ABORTED)", new="    def segmented_request_timeout(self):\n        if _debug: ServerSSM._debug(\"segmented_request_timeout\")\n\n        # give up\n        self.state = ABORTED"),
     dict(id="c04-iocb-complete-guard", props=["C04"], file="app.py", old="        if not queue.ioQueue.queue and not queue.active_iocb:\n            if _debug: ApplicationIOController._debug(\"    - queue is empty\")\n            del self.queue_by_address[address]", new="        if not queue.ioQueue.queue and queue.active_iocb:\n            if _debug: ApplicationIOController._debug(\"    - queue is empty\")\n            del self.queue_by_address[address]"),
 ]
+
+MUTANTS += [
+    # ---- C12
+    dict(id="c12-window-max", props=["C12"], file="appservice.py", old="        self.actualWindowSize = min(apdu.apduWin, self.ssmSAP.proposedWindowSize)\n        if _debug: ServerSSM", new="        self.actualWindowSize = max(apdu.apduWin, self.ssmSAP.proposedWindowSize)\n        if _debug: ServerSSM"),
+    dict(id="c12-maxsegs-ge", props=["C12"], file="appservice.py", old="if (self.maxSegmentsAccepted is not None) and (self.segmentCount > self.maxSegmentsAccepted):", new="if (self.maxSegmentsAccepted is not None) and (self.segmentCount > self.maxSegmentsAccepted + 1):"),
+    dict(id="c12-sa-ignored", props=["C12"], file="appservice.py", old="                if not self.segmented_response_accepted:", new="                if not self.segmented_response_accepted and self.segmentCount > 3:"),
+    dict(id="c12-server-own-maxapdu", props=["C12"], file="appservice.py", old="        self.maxApduLengthAccepted = decode_max_apdu_length_accepted(apdu.apduMaxResp)\n", new="        self.maxApduLengthAccepted = max(self.maxApduLengthAccepted, decode_max_apdu_length_accepted(apdu.apduMaxResp))\n"),
+    dict(id="c12-client-ignores-peer-seg", props=["C12"], file="appservice.py", old="            elif self.device_info.segmentationSupported not in ('segmentedReceive', 'segmentedBoth'):", new="            elif self.device_info.segmentationSupported not in ('segmentedReceive', 'segmentedBoth', 'segmentedTransmit'):"),
+    dict(id="c12-unseg-header-3", props=["C12"], file="appservice.py", old="        if len(apdu.pduData) <= self.segmentSize - 4:", new="        if len(apdu.pduData) <= self.segmentSize - 3:"),
+]
